@@ -34,6 +34,8 @@ structure Req where
   count : Nat
   lat : Nat
   lost : Bool := false      -- the scripted world: the peer does not answer this request (the reply is lost)
+  bcast : Bool := false     -- a broadcast: the client has `broadcast_enable` and the request addresses unit 0 (the
+                            -- manager writes it and reads nothing; no unit answers it)
   deriving Repr, DecidableEq, Inhabited
 
 /-- the lock discipline of `BaseModbusClient.execute` + `ModbusTransactionManager.execute` as a whole.
@@ -46,6 +48,8 @@ structure Req where
       outerPerKey key – client lock whole, one manager lock per key
       none            – no lock at all
       sendOnly        – no client lock, one manager lock held around the send only
+      broadcastOutside – as shipped for ordinary requests, but a broadcast leaves the client lock after the connect
+                        and is written outside both locks (seeded C15-04)
       lockOnlyWhenCold – the client lock is taken (around the connect only) only by a caller that sees no socket; a
                         caller that sees one goes straight to the manager (seeded C15-03)
       leakOnFail      – both locks as shipped, but the client lock is NOT given back when the connect of
@@ -60,14 +64,15 @@ inductive LockScope where
   | sendOnly
   | leakOnFail
   | lockOnlyWhenCold
+  | broadcastOutside
 
 inductive Op where
   | cacquire | preconnect | open | acquire | tid | connect | iopen | flush | send1 | send2 | wait | recv1 | recv2
-  | process | release | crelease | peek
+  | process | release | crelease | peek | bdone | btid
   deriving DecidableEq, Repr, Inhabited
 
 def Op.name : Op → String
-  | .cacquire => "acquire" | .crelease => "release" | .peek => "peek"
+  | .cacquire => "acquire" | .crelease => "release" | .peek => "peek" | .bdone => "bdone" | .btid => "tid"
   | .preconnect => "connect" | .open => "open" | .iopen => "open" | .flush => "flush"
   | .acquire => "acquire" | .tid => "tid" | .connect => "connect"
   | .send1 => "send1" | .send2 => "send2" | .wait => "wait" | .recv1 => "recv" | .recv2 => "recv"
@@ -76,31 +81,30 @@ def Op.name : Op → String
 /-- operations before which the scheduler may pre-empt in the harness (every transport call and the lock calls);
     `tid` and `process` are plain Python code between two such calls -/
 def Op.isYield : Op → Bool
-  | .tid | .process | .peek => false
+  | .tid | .process | .peek | .bdone | .btid => false
   | _ => true
 
+/-- what follows the send: the polls, the two reads and the processing of the reply — or, for a broadcast, just the
+    marker result (nothing is read) -/
+def afterSend (r : Req) : List Op :=
+  if r.bcast then [.bdone] else List.replicate r.lat .wait ++ [.recv1, .recv2, .process]
+
 /-- the part of a transaction between the manager's lock operations -/
-def coreOps (r : Req) : List Op :=
-  [.tid, .connect, .flush, .send1, .send2] ++ (List.replicate r.lat .wait ++ [.recv1, .recv2, .process])
+def coreOps (r : Req) : List Op := [.tid, .connect, .flush, .send1, .send2] ++ afterSend r
 
 /-- the operations of one call of `BaseModbusClient.execute` -/
 def txnOps (scope : LockScope) (r : Req) : List Op :=
   match scope with
   | .whole | .outerPerKey _ | .leakOnFail =>
-      [.cacquire, .preconnect, .acquire, .tid, .connect, .flush, .send1, .send2] ++
-      (List.replicate r.lat .wait ++ [.recv1, .recv2, .process, .release, .crelease])
-  | .connectLocked =>
-      [.cacquire, .preconnect, .crelease, .acquire, .tid, .connect, .flush, .send1, .send2] ++
-      (List.replicate r.lat .wait ++ [.recv1, .recv2, .process, .release])
-  | .connectOutside | .perKey _ =>
-      [.preconnect, .acquire, .tid, .connect, .flush, .send1, .send2] ++
-      (List.replicate r.lat .wait ++ [.recv1, .recv2, .process, .release])
-  | .lockOnlyWhenCold =>
-      [.peek, .cacquire, .preconnect, .crelease, .acquire, .tid, .connect, .flush, .send1, .send2] ++
-      (List.replicate r.lat .wait ++ [.recv1, .recv2, .process, .release])
+      [.cacquire, .preconnect, .acquire] ++ coreOps r ++ [.release, .crelease]
+  | .broadcastOutside =>
+      if r.bcast then [.cacquire, .preconnect, .crelease, .btid, .connect, .flush, .send1, .send2, .bdone]
+      else [.cacquire, .preconnect, .acquire] ++ coreOps r ++ [.release, .crelease]
+  | .connectLocked => [.cacquire, .preconnect, .crelease, .acquire] ++ coreOps r ++ [.release]
+  | .connectOutside | .perKey _ => [.preconnect, .acquire] ++ coreOps r ++ [.release]
+  | .lockOnlyWhenCold => [.peek, .cacquire, .preconnect, .crelease, .acquire] ++ coreOps r ++ [.release]
   | .none => .preconnect :: coreOps r
-  | .sendOnly => [.preconnect, .tid, .connect, .flush, .acquire, .send1, .send2, .release] ++
-      (List.replicate r.lat .wait ++ [.recv1, .recv2, .process])
+  | .sendOnly => [.preconnect, .tid, .connect, .flush, .acquire, .send1, .send2, .release] ++ afterSend r
 
 /-- lock 0 is the client lock; the manager lock(s) are numbered from 1 -/
 def clientKey : Nat := 0
@@ -108,7 +112,7 @@ def clientKey : Nat := 0
 /-- which manager lock a transaction takes -/
 def lockKey (scope : LockScope) (r : Req) : Option Nat :=
   match scope with
-  | .whole | .connectOutside | .connectLocked | .sendOnly | .leakOnFail | .lockOnlyWhenCold => some 1
+  | .whole | .connectOutside | .connectLocked | .sendOnly | .leakOnFail | .lockOnlyWhenCold | .broadcastOutside => some 1
   | .perKey key | .outerPerKey key => some (1 + key r)
   | .none => Option.none
 
@@ -123,6 +127,7 @@ inductive Msg where
 inductive Result where
   | ok (tid unit : Nat) (m : Msg)
   | err (e : PyErr)          -- a `ModbusIOException` handed back as the result
+  | bcastSent                -- the marker `b'Broadcast write sent - no response expected'`
   | raised (e : PyErr)       -- an exception that escaped `execute`
   deriving Repr, DecidableEq, Inhabited
 
@@ -277,8 +282,8 @@ def noteResp (l : List Nat) (unit : Nat) (resp : Bytes) : List Nat :=
   else (if l.contains unit then l.erase unit else l)
 
 /-- the scripted world: what the peer produces while this request is being written never arrives if the request is
-    marked `lost` -/
-def answer (r : Req) (reply : Bytes) : Bytes := if r.lost then [] else reply
+    marked `lost`; and no unit answers a broadcast -/
+def answer (r : Req) (reply : Bytes) : Bytes := if r.lost || r.bcast then [] else reply
 
 /-! ### one scheduler step -/
 
@@ -300,6 +305,13 @@ def raiseOut (s : State) (t : Nat) (th : Thread) (ops : List Op) (op : Op) (e : 
 
 /-- thread `t` (local state `th`, request `th.cur`) performs operation `op`; `ops` is what follows it -/
 def stepOp (scope : LockScope) (s : State) (t : Nat) (th : Thread) (ops : List Op) : Op → State
+  | .bdone =>       -- a broadcast is over once it is written: the marker is the result
+    { s with threads := upd s.threads t { th with ops := ops, results := th.results ++ [(th.cur, th.tidv, .bcastSent)] },
+             trace := (t, .bdone) :: s.trace }
+  | .btid =>        -- (mutant) `request.transaction_id = getNextTID()` outside the manager
+    { s with tid := (s.tid + 1) % 65536,
+             threads := upd s.threads t { th with ops := ops, tidv := (s.tid + 1) % 65536 },
+             trace := (t, .btid) :: s.trace }
   | .peek =>        -- (mutant) `if not self.socket:` — a caller that sees a socket skips the client lock and the connect
     { s with threads := upd s.threads t { th with ops := if s.sock.isSome then ops.drop 3 else ops },
              trace := (t, .peek) :: s.trace }
@@ -375,13 +387,20 @@ def stepOp (scope : LockScope) (s : State) (t : Nat) (th : Thread) (ops : List O
                stream := upd s.stream th.sconn
                  (s.stream th.sconn ++ answer th.cur (serverWrite (s.pending th.sconn) (th.frame.drop 7)).2),
                threads := upd s.threads t { th with ops := ops }, trace := (t, .send2) :: s.trace }
-    | Option.none =>   -- `_recv`: `if not self.socket: raise ConnectionException` (somebody closed the client)
-      raiseOut
+    | Option.none =>
+      if th.cur.bcast then    -- nothing is read after a broadcast: that the client was closed meanwhile goes unnoticed
         { s with wire := s.wire ++ [⟨t, false, th.sconn, th.frame.drop 7⟩],
                  pending := upd s.pending th.sconn (serverWrite (s.pending th.sconn) (th.frame.drop 7)).1,
                  stream := upd s.stream th.sconn
-                   (s.stream th.sconn ++ answer th.cur (serverWrite (s.pending th.sconn) (th.frame.drop 7)).2) }
-        t th ops .send2 .modbusExc
+                   (s.stream th.sconn ++ answer th.cur (serverWrite (s.pending th.sconn) (th.frame.drop 7)).2),
+                 threads := upd s.threads t { th with ops := ops }, trace := (t, .send2) :: s.trace }
+      else                    -- `_recv`: `if not self.socket: raise ConnectionException` (somebody closed the client)
+        raiseOut
+          { s with wire := s.wire ++ [⟨t, false, th.sconn, th.frame.drop 7⟩],
+                   pending := upd s.pending th.sconn (serverWrite (s.pending th.sconn) (th.frame.drop 7)).1,
+                   stream := upd s.stream th.sconn
+                     (s.stream th.sconn ++ answer th.cur (serverWrite (s.pending th.sconn) (th.frame.drop 7)).2) }
+          t th ops .send2 .modbusExc
   | .wait => { s with threads := upd s.threads t { th with ops := ops }, trace := (t, .wait) :: s.trace }
   | .recv1 =>
     match s.sock with
